@@ -1181,10 +1181,17 @@ func (c *Compiler) compileFunc(node *ast.Func) error {
 	}
 
 	// Build an array of default values for parameters, supporting only
-	// the basic types of int, string, bool, float, and nil.
+	// the basic types of int, string, bool, float, and nil. The parameters
+	// are visited in declaration order (not in the iteration order of the
+	// defaults map) so that the first unsupported default in the source is
+	// the one that is reported.
 	defaults := make([]any, len(params))
 	defaultsSet := map[int]bool{}
-	for name, expr := range node.Defaults() {
+	for _, name := range params {
+		expr, ok := node.Defaults()[name]
+		if !ok {
+			continue
+		}
 		var value any
 		switch expr := expr.(type) {
 		case *ast.Int:
